@@ -267,7 +267,15 @@ func (e *Exec) floatBin(op token.Token, x, y Float) Value {
 				return Float{W: 64, S: ex}
 			}
 		}
-		return Float{W: 64, S: e.round(ex)}
+		res := e.round(ex)
+		if op == token.ADD {
+			if tx.Int && tx.IntT != nil && ty.RBnd && ty.RLo >= 0 && ty.RHi < 1.0000001 {
+				res.FloorCand = tx.IntT
+			} else if ty.Int && ty.IntT != nil && tx.RBnd && tx.RLo >= 0 && tx.RHi < 1.0000001 {
+				res.FloorCand = ty.IntT
+			}
+		}
+		return Float{W: 64, S: res}
 	}
 	var sop string
 	switch op {
